@@ -18,13 +18,17 @@ MACROS = {
     'nonascii': r'[^\0-\177]',
     'unicode': r'\\[0-9A-Fa-f]{1,6}(?:{nl}|{s})?',
     # 'escape': r'{unicode}|\\[ -~\200-\777]',
-    'escape': r'{unicode}|\\[^\n\r\f0-9a-f]',
+    'escape': r'{unicode}|\\[^\n\r\f0-9a-fA-F]',
+    # an escape inside a string: a hex escape ended by a line break is one item, anything else is backslash +
+    # one character (further hex digits, a blank or a tab after it are ordinary characters of the string),
+    # so that a string is matched in one way only
+    'strescape': r'\\[0-9A-Fa-f]{1,6}{nl}|\\[^\n\r\f]',
     'nmstart': r'[_a-zA-Z]|{nonascii}|{escape}',
     'nmchar': r'[-_a-zA-Z0-9]|{nonascii}|{escape}',
-    'string1': r'"([^\n\r\f\\"]|\\{nl}|{escape})*"',
-    'string2': r"'([^\n\r\f\\']|\\{nl}|{escape})*'",
-    'invalid1': r'\"([^\n\r\f\\"]|\\{nl}|{escape})*',
-    'invalid2': r"\'([^\n\r\f\\']|\\{nl}|{escape})*",
+    'string1': r'"([^\n\r\f\\"]|\\{nl}|{strescape})*"',
+    'string2': r"'([^\n\r\f\\']|\\{nl}|{strescape})*'",
+    'invalid1': r'\"([^\n\r\f\\"]|\\{nl}|{strescape})*',
+    'invalid2': r"\'([^\n\r\f\\']|\\{nl}|{strescape})*",
     'comment': r'\/\*[^*]*\*+([^/*][^*]*\*+)*\/',
     'ident': r'[-]{0,2}{nmstart}{nmchar}*',
     'name': r'{nmchar}+',
@@ -33,7 +37,9 @@ MACROS = {
     'string': r'{string1}|{string2}',
     # from CSS2.1
     'invalid': r'{invalid1}|{invalid2}',
-    'url': r'[\x09\x21\x23-\x26\x28\x2a-\x7E]|{nonascii}|{escape}',
+    # likewise one way only: the characters allowed unescaped except the backslash, a hex escape ended by a
+    # line break or blank, a backslash in front of a character not allowed unescaped, any other backslash
+    'url': r'[\x09\x21\x23-\x26\x28\x2a-\x5b\x5d-\x7E]|{nonascii}|\\[0-9A-Fa-f]{1,6}(?:{nl}|\x20)|\\[\x00-\x08\x0b\x0e-\x20\x22\x27\x7f]|\\',
     's': r'\t|\r|\n|\f|\x20',
     'w': r'{s}*',
     'nl': r'\n|\r\n|\r|\f',
